@@ -1,6 +1,6 @@
 SPECIFICATION Spec
 CONSTANTS
-  MaxStmts = 6
+  MaxStmts = 5
   MaxDepth = 3
   MaxUnits = 1
   MaxRich <- Unlimited
